@@ -3,6 +3,7 @@ import Vanguard.Model.Codes
 import Vanguard.Model.Percent
 import Vanguard.Model.Timeout
 import Vanguard.Model.Router
+import Driver.E2E
 /-!
   Line protocol: one operation per line, `op arg …` (byte strings in hex, `-` = empty,
   numbers in decimal); one canonical result per line.  The Go harness prints the
@@ -45,12 +46,6 @@ def showVars (vs : List PVar) : String :=
 def parseRules (b : Bytes) : List (Bytes × Bytes) :=
   (splitOnByte 0x0A b).map fun line => (line.takeWhile (· != 0x20), (line.dropWhile (· != 0x20)).drop 1)
 
-def insertSorted (x : Bytes) : List Bytes → List Bytes
-  | [] => [x]
-  | y :: ys => if compareOfLessAndEq x y != .gt then x :: y :: ys else y :: insertSorted x ys
-
-def sortBytes (l : List Bytes) : List Bytes := l.foldr insertSorted []
-
 def showMatch : MatchRes → String
   | .found idx vars => String.intercalate " " (s!"found {idx}" :: vars.map toHex)
   | .allow ms => "allow " ++ toHex (joinWith 0x2C (sortBytes ms))
@@ -90,6 +85,8 @@ def dispatch : List String → String
       | .error i => s!"reject {i}"
       | .ok routes => showMatch (routeMatch routes p m)
     | _, _, _ => "bad-arg"
+  | ["e2e", h] => runE2E h
+  | ["e2e_fresh", h] => runE2E h
   | _ => "bad-op"
 
 end Vanguard.Driver
